@@ -193,6 +193,8 @@ func checkC01(c *Ctx) *report.Result {
 	r.Ob("F-exh", exits == 11, "rows that stop the process", "", fmt.Sprintf("%d dispatchable rows reach a process exit, documented 11 undefined opcodes", exits))
 	c.checkFNibble(r, m)
 	_ = it
+	r.Rule("F-bus", "what a load reads and a store writes: plain memory, mirrors, void regions and register read-back as decided by C06 (A-plain, A-mirror, A-void, B-readback, B-ones re-stated) - an instruction's effect is defined over the memory the decoder presents")
+	adopt(r, c.sibling("C06"), map[string]string{"A-plain": "F-bus", "A-mirror": "F-bus", "A-void": "F-bus", "B-readback": "F-bus", "B-ones": "F-bus"}, "a load that does not return the byte last stored at that address gives the instruction the wrong operand")
 	return r
 }
 
